@@ -14,7 +14,15 @@ if ! go build -o "$BIN" ./cmd/vcheck 2>/verif/bin/build.$ID.log; then
   rm -f "$BIN"
   exit 2
 fi
+GXZ=""
+case "$ID" in C10|C15)
+  GXZ=/verif/bin/gxz.$$.$ID
+  if ! (cd /repo && go build -o "$GXZ" ./cmd/gxz) 2>/verif/bin/build.$ID.log; then
+    echo "gxz build failed:" >&2; cat /verif/bin/build.$ID.log >&2; rm -f "$BIN"; exit 2
+  fi
+  export VERIF_GXZ="$GXZ";;
+esac
 "$BIN" "$ID" --tier "$TIER"
 rc=$?
-rm -f "$BIN"
+rm -f "$BIN" $GXZ
 exit $rc
